@@ -23,6 +23,7 @@ PoolAll == {
   U("circle", "fk5", SkyPos, <<V("mas", 1800000)>>, NoAng, "absent", [text |-> "FOV 5'", tag |-> "t1"]),
   U("point", "galactic", SkyPos, <<>>, NoAng, "0", [text |-> "\"quoted\""]),
   U("circle", "icrs", SkyPos, <<V("mas", 900000)>>, NoAng, "absent", [text |-> ";lead; tail;"]),
+  U("rectangle", "image", PixPos, <<V("mpix", 6000), V("mpix", 2000)>>, V("mas", 36000000), "absent", [text |-> "obs #3", width |-> "2"]),   \* ' #' in a text that is hoisted
   U("line", "image", PixPos \o <<V("mpix", 0), V("mpix", 7000)>>, <<>>, NoAng, "F", [color |-> "red"]),
   U("compound", "image", <<>>, <<>>, NoAng, "absent", NoProps),
   U("circle", "unnamed", SkyPos, <<V("mas", 3600000)>>, NoAng, "absent", NoProps) }
